@@ -87,7 +87,7 @@ def run(ctx, f, rep):
         # bound, wake the caller and return Pending.
         bounded = False
         for p in ps:
-            inner = [(i, ev) for i, ev in enumerate(p.events) if ev.kind == "call" and short(ev.name) == "poll_next"]
+            inner = [(i, ev) for i, ev in enumerate(p.events) if ev.kind == "call" and short(ev.name) in fq.INNER_POLL]
             for (i, ev) in inner:
                 pend = any(e[0] == "discr" and e[1] == ev.result and c == ("eq", 1) for (e, c, _, _) in p.conds)
                 if not pend:
@@ -115,13 +115,20 @@ def run(ctx, f, rep):
                               "a served peer is re-queued with a fresh ticket from the counter (ticket = %s)" % show(tick)[:70], b.loc(ev.bb))
         rep.floor("R06.3", "re-queue pushes in poll_next", fresh, 1)
     # R06.2 other pushers
+    # (surface functions: a crate-private helper the path engine looks through is judged in the context of each caller -
+    # a `put_back` helper of poll_next runs on the consumer's own task and has nobody to wake)
     pushers = []
+    looked_through = pathq.default_inline(f)
     for b in f.bodies:
-        if b in polls or b.j.get("coroutine_kind"):
+        if b in polls or b.j.get("coroutine_kind") or b.kind not in ("Fn", "AssocFn"):
             continue
-        if any(fn and fn["name"] == "push" and "BinaryHeap" in (fn.get("path") or "") + str(fn.get("resolved")) for bb, t, fn in b.calls()):
-            if "::test" not in b.path and "::tests" not in b.path:
-                pushers.append(b)
+        if "::test" in b.path or "::tests" in b.path:
+            continue
+        if looked_through({"local": True, "path": b.path, "name": b.j.get("name") or b.path.split("::")[-1], "trait": b.j.get("impl_trait")}):
+            continue
+        if any(fn and fn["name"] == "push" and "BinaryHeap" in (fn.get("path") or "") + str(fn.get("resolved"))
+               for k in pathq.scope(f, b) for bb, t, fn in k.calls()):
+            pushers.append(b)
     rep.floor("R06.2", "functions that push onto the ready heap besides poll_next", len(pushers), 2)
     for b in pushers:
         for p in pathq.paths(f, b):
@@ -181,9 +188,14 @@ def run(ctx, f, rep):
             if p.end != "return":
                 continue
             r = p.ret
+            # other.cmp(self), or self.cmp(other).reverse()
+            first, second = 2, 1
+            if r[0] in ("call", "pure") and short(r[1]) == "reverse" and "Ordering" in r[1] and len(r[2]) == 1:
+                r = r[2][0]
+                first, second = 1, 2
             ok = r[0] in ("call", "pure") and short(r[1]) == "cmp" and len(r[2]) == 2 and \
-                any(x == ("arg", 2) for x in walk_expr(r[2][0])) and any(x == ("arg", 1) for x in walk_expr(r[2][1])) and \
-                not any(x == ("arg", 1) for x in walk_expr(r[2][0]))
+                any(x == ("arg", first) for x in walk_expr(r[2][0])) and any(x == ("arg", second) for x in walk_expr(r[2][1])) and \
+                not any(x == ("arg", second) for x in walk_expr(r[2][0])) and not any(x == ("arg", first) for x in walk_expr(r[2][1]))
             rep.check(ok, "R06.3", "R06.3|%s|reversed" % b.path, "heap order compares tickets reversed (other.cmp(self)): %s" % show(r)[:80], b.loc())
     pcs = [b for b in f.bodies if b.j.get("name") == "partial_cmp" and "fair_queue" in b.path]
     rep.floor("R06.3", "PartialOrd of the ready event", len(pcs), 1)
